@@ -18,7 +18,10 @@ prop(
     ],
     rule="each generated document = a pint configuration enabling every configurable check kind (aggregate, annotation, label, cost, "
          "alerts, reject, link, for, keep_firing_for, name, range_query, report; spread over 1-4 rule{} blocks, random severities, 1-2 "
-         "prometheus blocks pointing at the fake server, sometimes a pre-disabled other check) + 1-5 rule files made of rules written to "
+         "prometheus blocks pointing at the fake server, sometimes a pre-disabled other check, and 0-2 baseline `rule { [match { kind }] enable = [X] }` / `rule { ... disable = [X] }` "
+         "blocks with X sometimes also listed in checks{disabled}; their expectation follows docs/configuration.md: a matching enable block "
+         "overrides the global disabled list - also what --disabled/--offline add to it -, disable beats enable, an enabled list admits "
+         "only the listed name) + 1-5 rule files made of rules written to "
          "trigger every reporter (plus a removed file for rule/dependency and a broken file for parse errors); EVERY document is tested "
          "against all 27 names x {checks{disabled}, --disabled, rule{disable}, checks{enabled}, --enabled} + --offline (137 evaluations "
          "per document incl. the default-enabled-list reference relation: default run == run with checks{enabled=[]}; the binary stage: 56 per document). Problems are compared as multisets keyed (file, rule, rule line, reporter, "
